@@ -75,10 +75,16 @@ TraceNext ==
 
 TraceSpec == TraceInit /\ [][TraceNext]_tvars
 
-(* registers: 1 = furthest record reached, 2 = end reached *)
+(* registers: 1 = furthest record reached, 2 = end reached, 3 = start of the latest run reached.    *)
+(* Once some explanation has got past a "reset", the unexplored alternatives of earlier runs are   *)
+(* irrelevant (a reset forgets everything), so they are cut; with TLC's depth-first queue the     *)
+(* search of an accepted log is then close to linear.                                             *)
 Track == /\ (l > TLCGet(1) => TLCSet(1, l))
          /\ (l = NRec + 1 => TLCSet(2, TRUE))
-ASSUME TLCSet(1, 0) /\ TLCSet(2, FALSE)
+         /\ (l > 1 /\ l - 1 <= NRec /\ Rec[l - 1].ev = "reset" /\ l > TLCGet(3) => TLCSet(3, l))
+         /\ l >= TLCGet(3)
+         /\ (TLCGet(2) => l = NRec + 1)
+ASSUME TLCSet(1, 0) /\ TLCSet(2, FALSE) /\ TLCSet(3, 0)
 
 Accepted ==
     /\ PrintT(<<"TRACE-RESULT", TLCGet(2), TLCGet(1), NRec>>)
